@@ -7,7 +7,7 @@ from lib.core import qlit, blit, olit
 
 PROP = 'C11'
 GEN = ['Costs']
-COQ = ['Model/Num.v', 'Model/Costs.v', 'Proofs/NumFacts.v', 'Proofs/CostsFacts.v', 'Gen/Costs.v', 'Properties/C11.v']
+COQ = ['Model/Num.v', 'Model/Costs.v', 'Model/Position.v', 'Proofs/NumFacts.v', 'Proofs/CostsFacts.v', 'Gen/Costs.v', 'Properties/C11.v']
 RULE = ('random trading scenarios (daily and minute bars, volume caps small enough to split orders into several fills, '
         'all commission/tax multipliers, by-money and by-volume futures, two contracts of one underlying with schedules overridden per contract or per '
         'underlying in base.future_info, dates on both sides of 2023-08-28); a case is one '
@@ -17,7 +17,7 @@ ASSUMPTIONS = ['float64 rounding not modelled: model values are exact rationals 
                'the commission of trades without an order (dividend reinvestment, expiry) share the order id None entry, as in the code']
 TRUSTED = []
 
-PRELUDE = '''From RQ Require Import Model.Num Model.Costs.
+PRELUDE = '''From RQ Require Import Model.Num Model.Costs Model.Position.
 Open Scope Q_scope.
 Definition chk_stock (c : scost) (e : cm_entry) (is_cs sell : bool) (p q comm tax : Q) (e' : cm_entry) : bool :=
   let r := trade_commission c e p q in
@@ -28,6 +28,7 @@ Definition chk_fut_sched (f : fcost) (oc ou : option fover) (is_open : bool) (p 
   | Some f' => approx (fut_commission f' is_open p q ct) comm
   | None => false
   end.
+Definition chk_ct (c : pcfg) (p : pos) (amount : Q) (e : effect) (ct : Q) : bool := approx (calc_close_today_amount c p amount e) ct.
 Definition chk_reserve_close (c : scost) (is_cs sell : bool) (p q r : Q) : bool := approx (order_cost c is_cs sell p q) r.
 '''
 
@@ -182,6 +183,16 @@ def analyse(scn, out):
                 qlit(info['close_commission_today_ratio']), qlit(fmult))
             cases.append(('chk_fut %s %s %s %s %s %s' % (f, blit(tr['eff'] == 'OPEN'), qlit(p), qlit(q), qlit(tr['ct'] or 0.0), qlit(tr['commission'])),
                           dict(component='commission of a futures trade', trade=tr)))
+            if pp is not None and tr['eff'] != 'OPEN':
+                # the quantity the close-today rate applies to: exactly what is closed out of today's position (the model's calc_close_today_amount
+                # on the position before the trade, for the quantity of THIS fill)
+                from checks.acct import pos_lit, pcfg_lit, eff_lit
+                try:
+                    cases.append(('chk_ct %s %s %s %s %s' % (pcfg_lit(ins, tr['dir']), pos_lit(pp, last_override=0.0 if pp.get('last') is None else None), qlit(q),
+                                                             eff_lit(tr['eff']), qlit(tr['ct'] or 0.0)),
+                                  dict(component='close-today quantity of a futures fill', trade=tr, pos=pp)))
+                except Exception:
+                    stats['skipped_ct'] = stats.get('skipped_ct', 0) + 1
             if custom:
                 d0 = finfo[ins['und']]
                 f0 = '{| fc_by_money := %s; fc_mult := %s; fc_open := %s; fc_close := %s; fc_close_today := %s; fc_cmult := %s |}' % (
